@@ -370,9 +370,13 @@ class Inliner:
         off = self.ids.next() * 1000
         body = copy.deepcopy(b["hir_raw"] if "hir_raw" in b else b["hir"])
         params = copy.deepcopy(b["params"])
+        tag = f"~{self.ids.next() % 100000}"
         for x in list(all_nodes(body)) + list(all_nodes(params)):
             if x.get("k") in ("local", "pbind") and isinstance(x.get("id"), int):
                 x["id"] += off
+                # the helper's own locals get names that cannot collide with (or shadow) the caller's
+                if isinstance(x.get("name"), str) and x["name"] != "self":
+                    x["name"] = x["name"] + tag
         sub, lets = {}, []
         for p, a in zip(params, call["args"]):
             if "Mut" not in str(p.get("mode", "")).split(",")[-1] and place_like(a):
